@@ -74,6 +74,8 @@ def add_gates(rng, g, n_gates=None):
     n_gates = n_gates if n_gates is not None else rng.randint(1, 3)
     for gi in range(n_gates):
         gname = f"g{gi}"
+        if gi > 0 and rng.random() < 0.4:
+            names = names + [f"g{gi - 1}"]   # a gate may itself be the target of a later gate (chained gates)
         # gate input: a fresh external int, or an int-valued value (so the gate may become ready later than its targets)
         if g["int_valued"] and rng.random() < 0.5:
             gin = rng.choice(g["int_valued"])
@@ -142,7 +144,7 @@ def gen_loop(rng, m=None, N=None, kind=None, exit_node=None, wait_sync=False, ac
     if exit_node:
         nodes.append({"name": "finish", "kind": "func", "inputs": ["x"], "outputs": ["result"], "emit": [], "wait_for": [], "defaults": {}, "fn": ["sym", "finish"]})
     if accum:
-        nodes.append({"name": "acc", "kind": "func", "inputs": ["hist", "x"], "outputs": ["hist"], "emit": [], "wait_for": [], "defaults": {}, "fn": ["sym", "acc"]})
+        nodes.append({"name": "acc", "kind": "func", "inputs": ["hist", "x"], "outputs": ["hist"], "emit": [], "wait_for": [], "defaults": {}, "fn": ["add", 1]})
     rng.shuffle(nodes)
     return {"nodes": nodes, "bound": {}, "entrypoints": None, "selected": None, "ext": ["x"], "int_valued": ["x"],
             "loop": {"m": m, "N": N, "kind": kind, "exit": exit_node, "wait_sync": wait_sync, "accum": accum}}
@@ -157,3 +159,39 @@ def complete_inputs(rng, g, required, optional, provide_optional=0.5):
         if rng.random() < provide_optional:
             vals[x] = rng.randint(0, 3)
     return vals
+
+
+def make_inputs(rng, g, G=None, provide_optional=0.5, int_range=(0, 3)):
+    """Reads the real graph's input spec and returns run-time inputs supplying every required name,
+    the parameters of one listed cycle entry point, and some optional names."""
+    if G is None:
+        from harness import engine
+        G = engine.real_input_spec(g)
+    spec = G.inputs
+    vals = {}
+    for x in spec.required:
+        vals[x] = rng.randint(*int_range)
+    if spec.entrypoints:
+        ep = sorted(spec.entrypoints)[0]
+        for x in spec.entrypoints[ep]:
+            vals[x] = rng.randint(*int_range)
+    for x in spec.optional:
+        if rng.random() < provide_optional:
+            vals[x] = rng.randint(*int_range)
+    return vals
+
+
+def gen_program(rng, family=None):
+    """A program from one of the families: dag, gated (DAG + gates), loop (L1/L2), emit (DAG with emit/wait_for)."""
+    family = family or rng.choice(["dag", "gated", "gated", "loop", "loop_sync", "emit"])
+    if family == "dag":
+        return gen_dag(rng), family
+    if family == "gated":
+        return add_gates(rng, gen_dag(rng, max_nodes=6, edge_defaults=0.1)), family
+    if family == "loop":
+        return gen_loop(rng, wait_sync=False, accum=rng.random() < 0.3), family
+    if family == "loop_sync":
+        return gen_loop(rng, wait_sync=True), family
+    if family == "emit":
+        return gen_dag(rng, max_nodes=6, emits=0.5), family
+    raise ValueError(family)
